@@ -214,7 +214,7 @@ PROPS = {
     'C18': {
         'level': 'exploration',
         'engine': 'confx',
-        'claim': 'Complete enumeration of the configuration family: the library is built by the project\'s own Makefile from a scratch copy of the current tree; every public header alone, every ordered pair and all twelve together in two orders (146 header sets), each as a one-translation-unit and a two-translation-unit C99 program whose every TU uses a type, an inline function and an external function of every included header, compiled with the project\'s warning flags and linked against libcstl.a and against libcstl.so (584 programs, each also run); plus a client generated from gcc -aux-info that takes the address of every function the headers declare, linked against both library kinds.',
+        'claim': 'Complete enumeration of the configuration family: the library is built by the project\'s own Makefile from a scratch copy of the current tree; every public header alone, every ordered pair and all twelve together in two orders (146 header sets), each as a one-translation-unit and a two-translation-unit C99 program whose every TU uses a type, an inline function and an external function of every included header, compiled with the project\'s warning flags and once more as a strictly conforming C99 translation unit (-std=c99 -pedantic-errors), and linked against libcstl.a and against libcstl.so as a client sees them: both libraries and the public headers staged into an install directory, the build tree with its object files removed (584 programs, each also run); plus a client generated from gcc -aux-info that takes the address of every function the headers declare, linked against both library kinds.',
         'note': 'Oracle = exit status of compiler, linker and program (multiple definition, undefined reference, incomplete type, ...). Triples of headers are not enumerated (pairs + all-together cover ordering and guard interactions pairwise). The usage snippets per header are part of the harness; a new public header without a snippet is reported in the evidence.',
         'technique': 'exhaustive enumeration of header sets x translation-unit layouts x library kinds with a compile/link/run oracle',
         'jobs': [{'world': 'c18', 'script': 'lib/c18_headers.py', 'flavours': {'quick': ['rel'], 'thorough': ['rel']}}],
